@@ -153,6 +153,23 @@ def run(tier):
         tx = deco_.texts()[0]
         common.write(p, tx if isinstance(tx, bytes) else tx.encode('latin-1', 'replace'))
         inputs.append(('diag:%d' % i, p))
+    # quantities at the edge of every overflow check of the front end (array lengths x element sizes, designator indices, shift counts, enumerators): an
+    # overflow test written differently for the host compiler and for the portable fallback gives stage 1 and stage 2 different answers exactly here
+    lim = []
+    for esz, ety in ((1, 'char'), (2, 'short'), (4, 'int'), (8, 'long'), (16, 'struct { long a, b; }'), (3, 'struct { char c[3]; }'), (24, 'struct { long a[3]; }')):
+        q = 0xffffffffffffffff // esz
+        for n in (q - 1, q, q + 1, q // 2, q // 2 + 1, (1 << 63) // esz, (1 << 63) // esz - 1, (1 << 63) // esz + 1):
+            if 0 < n <= 0xffffffffffffffff:
+                lim.append('extern %s la[%d]; unsigned long ls = sizeof la;' % (ety, n))
+                lim.append('extern %s lb[2][%d];' % (ety, n // 2))
+                lim.append('typedef %s lt[%d]; unsigned long lu = sizeof(lt) / 2;' % (ety, n))
+    for v in (0x7fffffff, 0x80000000, 0xffffffff, 0x100000000, 0x7fffffffffffffff, 0x8000000000000000, 0xffffffffffffffff):
+        lim += ['int ld[] = { [%d] = 1 };' % v, 'enum { LE = %d, LF };' % v, 'enum { LG = -%d - 1 };' % v, 'int lh = 1 << (%d & 63); int li[(%d >> 40) + 1];' % (v, v), 'struct { int b : %d; } lj;' % (v & 127),
+                'char lk[%d]; char *lp = &lk[%d];' % (v, v - 1), 'int ll = sizeof(char[%d]) > 1;' % v, '_Static_assert(%d, "x");' % v, 'int lm = %d + 1 > 0;' % v, 'void lf(void) { switch (0) { case %d: ; case %d - 1: ; } }' % (v, v)]
+    for i, t in enumerate(lim):
+        p = os.path.join(gdir, 'lim%d.c' % i)
+        common.write(p, t + '\n')
+        inputs.append(('limit:%d' % i, p))
     seqs = [b for _, b, _ in c14.INVALID] + [b'\xf4\x8f\xbf\xbf', b'\xf4\x90\x80\x80', b'\xf4\x90\x80\x81', b'\xed\x9f\xbf', b'\xee\x80\x80', b'\xef\xbf\xbf', b'\xf0\x90\x80\x80', b'\xc2\x80', b'\xdf\xbf', b'\xe0\xa0\x80', b'\xe2\x82\xac', b'\xc3\xa9']
     for i, q in enumerate(seqs):
         for j, pfx in enumerate((b'', b'u8', b'u', b'U', b'L')):
